@@ -294,6 +294,8 @@ def handleGen (t : List String) : List String :=
         match p.makemove m true with
         | some q => (legalMoves q).isEmpty && q.inCheck
         | none => false).map showPos
+  | ["gpattern", seed, kind, n, frc] =>
+    (GenPos.patterns (nat! kind) (nat! n) (GenPos.Rng.mk' (nat! seed)) (b01 frc)).map showPos
   | ["gstart", n, m, frc] =>
     [showPos (rel (GenPos.startFrom (GenPos.backRank960 (nat! n)) (GenPos.backRank960 (nat! m))) (b01 frc))]
   | _ => ["bad-op"]
